@@ -1398,8 +1398,10 @@ class BaseImage(metaclass=ImageMeta):
             else:  # middle
                 top = (height - lines) // 2
                 bottom = height - lines - top
-            top = f"{' ' * width}\n" * top
-            bottom = f"\n{' ' * width}" * bottom
+            # Padding lines must span the render when it's wider than the padding width
+            line = " " * max(width, cols)
+            top = f"{line}\n" * top
+            bottom = f"\n{line}" * bottom
         else:
             top = bottom = ""
 
